@@ -251,6 +251,61 @@ var cases = []caseDef{
 		return lv(ints(out))
 	}, same},
 	{"flat()", "", func(r []int, a, b, c int) V { return lv(ints(r)) }, same},
+	// callbacks with a local variable: a local starts unset for every element (it is neither the
+	// index argument nor what the previous element left behind)
+	{"map(function($x) use ($a) { if ($x > $a) { $s = $x; } return $s ?? 0; })", "", func(r []int, a, b, c int) V {
+		out := make([]int, len(r))
+		for i, x := range r {
+			if x > a {
+				out[i] = x
+			}
+		}
+		return lv(ints(out))
+	}, same},
+	{"filter(function($x) use ($a) { if ($x > $a) { $big = 1; } return ($big ?? 0) > 0; })", "", func(r []int, a, b, c int) V {
+		var out []int
+		for _, x := range r {
+			if x > a {
+				out = append(out, x)
+			}
+		}
+		return lv(ints(out))
+	}, same},
+	{"findIndex(function($x) use ($a) { if ($x == $a) { $hit = 1; } return ($hit ?? 0) == 1; })", "", func(r []int, a, b, c int) V {
+		for i, x := range r {
+			if x == a {
+				return iv(i)
+			}
+		}
+		return iv(-1)
+	}, same},
+	{"some(function($x, $i) use ($a) { if ($x > $a) { $f = 1; } return ($f ?? 0) == 1; })", "", func(r []int, a, b, c int) V {
+		for _, x := range r {
+			if x > a {
+				return V{K: 'b', B: true}
+			}
+		}
+		return V{K: 'b', B: false}
+	}, same},
+	{"reduce(function($acc, $x) { return $acc + $x; })", "", func(r []int, a, b, c int) V {
+		if len(r) == 0 {
+			return V{K: 'n'}
+		}
+		acc := r[0]
+		for _, x := range r[1:] {
+			acc += x
+		}
+		return iv(acc)
+	}, same},
+	{"reduce(function($acc, $x) use ($a) { if ($x > $a) { $n = 1; } return $acc + ($n ?? 0); }, 0)", "", func(r []int, a, b, c int) V {
+		acc := 0
+		for _, x := range r {
+			if x > a {
+				acc++
+			}
+		}
+		return iv(acc)
+	}, same},
 }
 
 func rev(r []int) []int {
@@ -478,4 +533,111 @@ func H_string() {
 		}
 	}
 	symx.Reach("end")
+}
+
+// H_array_text: methods whose result depends on the decimal text of the elements (join, sort)
+// and flat() on nested lists. Elements come from a concrete pool (number formatting is not encoded).
+func H_array_text() {
+	pool := []int{10, 9, 1, -1, -2, 2}
+	L := symx.Choose("L", 4)
+	var r []int
+	lit := "["
+	for i := 0; i < L; i++ {
+		if i > 0 {
+			lit += ", "
+		}
+		v := pool[symx.Choose("e"+string(rune('0'+i)), len(pool))]
+		r = append(r, v)
+		lit += itoa(v)
+	}
+	lit += "]"
+	kind := symx.Choose("method", 7)
+	text := func(sep string) string {
+		out := ""
+		for i, x := range r {
+			if i > 0 {
+				out += sep
+			}
+			out += itoa(x)
+		}
+		return out
+	}
+	var call string
+	var wantStr string
+	var wantList []V
+	isStr := false
+	after := lv(ints(r))
+	recvLit := lit
+	switch kind {
+	case 0:
+		call, wantStr, isStr = "join()", text(","), true
+	case 1:
+		call, wantStr, isStr = "join(\"-\")", text("-"), true
+	case 2:
+		call, wantStr, isStr = "join(\"\")", text(""), true
+	case 3:
+		// sort(): string comparison of the elements, receiver sorted in place
+		sorted := append([]int{}, r...)
+		for i := 1; i < len(sorted); i++ {
+			for j := i; j > 0 && itoa(sorted[j]) < itoa(sorted[j-1]); j-- {
+				sorted[j], sorted[j-1] = sorted[j-1], sorted[j]
+			}
+		}
+		call, wantList = "sort()", ints(sorted)
+		after = lv(ints(sorted))
+	default:
+		// flat(depth?) on [e.., [e.., [e..]]]
+		nested := lv(append(ints(r), lv(append(ints(r), lv(ints(r))))))
+		recvLit = "[" + text(", ") + sepIf(L) + "[" + text(", ") + sepIf(L) + "[" + text(", ") + "]]]"
+		after = nested
+		switch kind {
+		case 4:
+			call = "flat()"
+			wantList = append(append(ints(r), ints(r)...), lv(ints(r)))
+		case 5:
+			call = "flat(2)"
+			wantList = append(append(ints(r), ints(r)...), ints(r)...)
+		case 6:
+			call = "flat(0)"
+			wantList = nested.List
+		}
+	}
+	res, recv, threw, ok := runMethod(recvLit, call, []sx.Bind{{Name: "pa", V: sx.Int(0)}, {Name: "pb", V: sx.Int(0)}, {Name: "pc", V: sx.Int(0)}})
+	symx.Assert(ok && !threw, call+": call completes")
+	if !ok || threw {
+		return
+	}
+	if isStr {
+		symx.Assert(len(res) == 1 && res[0].Kind == 's' && res[0].S == wantStr, call+": result as documented")
+	} else {
+		sameObs(res, lv(wantList), call+": result as documented", false, "")
+	}
+	sameObs(recv, after, call+": receiver afterwards as documented", false, "")
+	symx.Reach("end")
+}
+
+func sepIf(L int) string {
+	if L > 0 {
+		return ", "
+	}
+	return ""
+}
+
+func itoa(x int) string {
+	if x == 0 {
+		return "0"
+	}
+	neg := x < 0
+	if neg {
+		x = -x
+	}
+	out := ""
+	for x > 0 {
+		out = string(rune('0'+x%10)) + out
+		x /= 10
+	}
+	if neg {
+		out = "-" + out
+	}
+	return out
 }
